@@ -328,13 +328,13 @@ def judge(structure, result, error, log, error_type):
     path, kind, _ident = culprit[0]
     for other_path, other_kind, _ in elements:
         relation = precedes(other_path, path)
-        if not relation:
-            continue
-        if other_kind in FAILING_KINDS:
+        if relation and other_kind in FAILING_KINDS:
             return ("failure:not-the-first-failing-element",
                     "the error names %s, but the failing %s (%s) comes earlier in the "
                     "documented order" % (show(path), show(other_path), relation))
-        if other_path not in position:
+    for other_path, other_kind, _ in elements:
+        relation = precedes(other_path, path)
+        if relation and other_path not in position:
             return ("failure:reported-before-predecessors-constructed",
                     "the error names %s, but %s (%s) was never constructed"
                     % (show(path), show(other_path), relation))
